@@ -55,63 +55,63 @@ var c18Plain = []string{"alice", "bob", "admin", "data1", "data2", "read", "writ
 
 func c18Field(c *Ctx) string {
 	pick := func(xs []string) string { return xs[c.Rng.Intn(len(xs))] }
-	switch x := c.Rng.Intn(100); {
-	case x < 30:
+	switch x := c.Rng.Intn(200); {
+	case x < 70:
 		return pick(c18Plain)
-	case x < 36:
+	case x < 80:
 		return ""
-	case x < 46:
+	case x < 100:
 		return pick(c18Blanks) + pick(c18Plain)
-	case x < 54:
+	case x < 116:
 		return pick(c18Plain) + pick(c18Blanks)
-	case x < 58:
+	case x < 124:
 		return pick(c18Blanks) + pick(c18Plain) + pick(c18Blanks)
-	case x < 61:
+	case x < 129:
 		return pick(c18Blanks)
-	case x < 66:
+	case x < 139:
 		return pick(c18NearBlanks) + pick(c18Plain)
-	case x < 69:
+	case x < 145:
 		return pick(c18Plain) + pick(c18NearBlanks)
-	case x < 71:
+	case x < 148:
 		return pick(c18NearBlanks)
-	case x < 76:
+	case x < 158:
 		return `"` + pick(c18Plain) + `"`
-	case x < 79:
+	case x < 164:
 		return `"` + pick(c18Plain) + `,` + pick(c18Plain) + `"`
-	case x < 82:
+	case x < 170:
 		return `"` + pick(c18Plain) + `""` + pick(c18Plain) + `"`
-	case x < 84:
+	case x < 174:
 		return pick(c18Blanks) + `"` + pick(c18Plain) + `"`
-	case x < 86:
-		return `"` + pick(c18Plain) + `"` + pick(c18Blanks)
-	case x < 88:
+	case x < 178:
 		return `"` + pick(c18Blanks) + pick(c18Plain) + pick(c18Blanks) + `"`
-	case x < 89:
+	case x < 180:
 		return `""`
-	case x < 90:
+	case x < 182:
 		return `""""`
-	case x < 92:
-		return pick(c18Plain) + `"` + pick(c18Plain)
-	case x < 93:
-		return `"` + pick(c18Plain)
-	case x < 94:
-		return pick(c18Plain) + `"`
-	case x < 95:
-		return `"` + pick(c18Plain) + `"x`
-	case x < 96:
-		return `"` + pick(c18Plain) + `""`
-	case x < 97:
-		return `"`
-	case x < 98:
+	case x < 184:
 		return `"#"`
-	case x < 99:
+	case x < 186:
+		return `"` + pick(c18Plain) + `"` + pick(c18Blanks) // error: text after the closing quote
+	case x < 189:
+		return pick(c18Plain) + `"` + pick(c18Plain) // error: bare quote
+	case x < 191:
+		return `"` + pick(c18Plain) // error: no closing quote (swallows the rest)
+	case x < 193:
+		return pick(c18Plain) + `"`
+	case x < 195:
+		return `"` + pick(c18Plain) + `"x`
+	case x < 196:
+		return `"` + pick(c18Plain) + `""`
+	case x < 197:
+		return `"`
+	case x < 199:
 		return `"` + pick(c18Plain) + `,`
 	default:
 		return `"",""`
 	}
 }
 
-var c18Keys = []string{"p", "p", "p", "p", "g", "g", "g", "", " p", "p ", "\tp", "x", "r", "m", "e", "#", "#p", "p2", "g2", `"p"`, `"g"`, ` "p"`, "P", "pp", " p", "p ", "l", "logger"}
+var c18Keys = []string{"p", "p", "p", "p", "p", "p", "p", "p", "p", "p", "p", "p", "p", "p", "p", "p", "p", "p", "p", "p", "g", "g", "g", "g", "g", "g", "g", "g", "g", "g", "g", "g", "p", "p", "p", "p", "g", "g", "g", "", " p", "p ", "\tp", "x", "r", "m", "e", "#", "#p", "p2", "g2", `"p"`, `"g"`, ` "p"`, "P", "pp", " p", "p ", "l", "logger"}
 
 func c18Csv(c *Ctx) {
 	n := 0
@@ -136,7 +136,7 @@ func c18Csv(c *Ctx) {
 	// duplicates by PolicyMap key: the comma inside a quoted field (F07's key) — the second line is skipped
 	c18CsvCase(c, id(), "flat", []string{`g, "a,b", c`, `g, a, "b,c"`, `g, a, b, c`})
 	c18CsvCase(c, id(), "flat", []string{`g, a, b, c`, `g, "a,b", c`})
-	count := 12000
+	count := 20000
 	if c.Thorough() {
 		count = 200000
 	}
